@@ -37,6 +37,12 @@ def check(pid, tier):
         cfgs += rng.sample(got, min(len(got), n))
     # composition-wide limits, and limits set on the slots themselves (location from the composition)
     jobs = [(c, None, lim) for c in cfgs for lim in (None, 0, 8, 20)] + [(c, None, None, lim) for c in cfgs for lim in (0, 12)]
+    # unusual spill locations (nested, not existing yet, characters that are special to glob patterns) and a
+    # second composition created up front with the same location that runs and is finalized first
+    LOCS = ["spill", "scenario[1]/spill", "what-if?", "run*1", "a b/c"]
+    sub = rng.sample(cfgs, min(len(cfgs), 150 if tier == "quick" else 1500))
+    jobs += [(c, None, lim, None, rng.choice(LOCS), False) for c in sub for lim in (0, 8)]
+    jobs += [(c, None, lim, None, rng.choice(["", "spill"]), True) for c in sub[:len(sub) // 2] for lim in (0, 8)]
     traces = run_configs(jobs)
     herr = [t for t in traces if "harness_error" in t]
     if herr:
@@ -51,7 +57,7 @@ def check(pid, tier):
                     if t["end"]["limit"] == -1 and t["end"]["slot_limit"] == -1 and k not in bad}
     series = {}
     for k, t in enumerate(traces):
-        series.setdefault(jdump(t["cfg"]), {})[(t["end"]["limit"], t["end"]["slot_limit"])] = jdump([t["end"]["out"], t["end"]["series"]])
+        series.setdefault(jdump(t["cfg"]), {})[(t["end"]["limit"], t["end"]["slot_limit"], t["end"].get("loc", ""), t["end"].get("twin", False))] = jdump([t["end"]["out"], t["end"]["series"]])
     for k, verdict in sorted(bad.items()):
         t = traces[k]
         p = sched_property(verdict, t["cfg"])
